@@ -161,7 +161,52 @@ def numpy_axioms(tier, seed):
     return json.loads(lines[-1])
 
 
+def regex_matcher(tier, seed):
+    """the derivative matcher against the re module, on the patterns read from the real source"""
+    import ast
+    import random
+    import re
+    sys.path.insert(0, os.path.dirname(os.path.dirname(os.path.abspath(__file__))))
+    from pyvc import fmtterms
+    repo = os.environ.get("PYVC_REPO", "/repo")
+    tree = ast.parse(open(os.path.join(repo, "openfisca_core", "types.py")).read())
+    pats = {}
+    for st in tree.body:
+        if isinstance(st, ast.Assign) and isinstance(st.value, ast.Call) and ast.unparse(st.value.func) == "re.compile":
+            pats[st.targets[0].id] = st.value.args[0].value
+    rnd = random.Random(seed)
+    texts = set()
+    for y in ("2014", "0999", "9999", "201", "20145"):
+        texts.add(y)
+        for m in range(0, 100):
+            texts.add(f"{y}-{m:02d}")
+            texts.add(f"{y}-W{m:02d}")
+            for d in (0, 1, 7, 8, 9):
+                texts.add(f"{y}-W{m:02d}-{d}")
+        for m in (0, 1, 9, 10, 12, 13):
+            for d in range(0, 100):
+                texts.add(f"{y}-{m:02d}-{d:02d}")
+        for d in range(0, 10):
+            texts.add(f"{y}-{d}")
+    alpha = "0123456789-W:w "
+    for _ in range(5000 if tier == "quick" else 200000):
+        texts.add("".join(rnd.choice(alpha) for _ in range(rnd.randint(0, 11))))
+    bad, cases = [], 0
+    for name, pat in pats.items():
+        rx = re.compile(pat)
+        for t in texts:
+            cases += 1
+            try:
+                got = fmtterms.match_concrete(pat, t)
+            except Exception as e:
+                bad.append((name, t, repr(e)))
+                break
+            if got != bool(rx.match(t)):
+                bad.append((name, t, got))
+    return {"name": "regex derivative matcher vs re on " + ", ".join(sorted(pats)), "ok": not bad and len(pats) >= 2, "cases": cases, "detail": repr(bad[:5])}
+
+
 if __name__ == "__main__":
     which, tier, seed = sys.argv[1], sys.argv[2], int(sys.argv[3])
-    fn = {"calendar": calendar_vs_datetime, "z3cal": z3_vs_calmodel, "extmodel": extmodel_vs_calmodel, "isoorder": iso_order, "numpy": numpy_axioms, "numpyio": numpy_io}[which]
+    fn = {"calendar": calendar_vs_datetime, "z3cal": z3_vs_calmodel, "extmodel": extmodel_vs_calmodel, "isoorder": iso_order, "numpy": numpy_axioms, "numpyio": numpy_io, "regex": regex_matcher}[which]
     print(json.dumps(fn(tier, seed)))
